@@ -7,6 +7,7 @@
 -/
 import Verif.Py
 import Verif.Proto
+import Verif.Model.C01
 
 namespace Verif.C06
 open Verif.Py
@@ -100,6 +101,10 @@ structure KView where
   /-- the calibrated pixel size as the DOUBLE the code holds (`_calibration.value`): products and quotients are
       rounded where the code rounds them, so that `int(lower / px)` can be executed as the code executes it -/
   pxF : Float := 0.0
+  /-- the kymograph's own time window `[start, stop)` (`Kymo.start`, `Kymo.stop`): what `None` bounds default to and
+      what time strings are relative to; a time slice narrows it, the other operations copy it -/
+  tStart : Int := 0
+  tStop : Int := 0
 deriving Repr
 
 def KView.numLines (v : KView) : Nat := numCols v.img
@@ -140,7 +145,45 @@ def KView.sliceTime (v : KView) (a b : Int) : KRes :=
       let lt : Rat := match kept with
         | r0 :: r1 :: _ => ((r1.1 - r0.1 : Int) : Rat)
         | _ => v.scanTimeNs
-      .view { v with img := img, lineTimeNs := lt }
+      -- the slice's own window: from the start of its first line to the start of the first line after it; when it
+      -- runs to the last line, to the requested stop — but not beyond the parent's stop and not before the end of
+      -- the last line
+      let newStart := (starts[iMin]?).getD 0
+      let newStop := if iMax < n then (starts[iMax]?).getD 0
+        else max (min b v.tStop) ((rs.getLast?.map (·.2)).getD 0)
+      .view { v with img := img, lineTimeNs := lt, tStart := newStart, tStop := newStop }
+
+/-- a bound of `kymo[a:b]` as the user writes it: `None`, an integer timestamp, or a time string -/
+inductive KBound where
+  | none
+  | ts (t : Int)
+  | str (s : String)
+deriving Repr, DecidableEq
+
+/-- what is written between the brackets: a scalar (`kymo[5]`), or a slice with or without a step -/
+inductive KItem where
+  | scalar
+  | window (a b : KBound) (step : Bool)
+deriving Repr, DecidableEq
+
+/-- `to_timestamp(value, self.start, self.stop)` with `None` replaced by the default first: a time string is parsed
+    by `Timeindex` (`C01.parseTime`; `none` = `RuntimeError("Invalid time string")`) and counted from `start`
+    (non-negative) or back from `stop` (negative) -/
+def KView.resolve (v : KView) (dflt : Int) : KBound → Option Int
+  | .none => some dflt
+  | .ts t => some t
+  | .str s => (C01.parseTime s).map fun ns => C01.resolve v.tStart v.tStop dflt (.rel ns)
+
+/-- `Kymo.__getitem__` as the user calls it: the item is validated first (scalar / step: `IndexError`, before anything
+    else), then `_check_is_sliceable`, then the bounds are resolved, then the lines are selected (`sliceTime`) -/
+def KView.getitem (v : KView) : KItem → KRes
+  | .scalar => .err .indexError
+  | .window a b step =>
+    if step then .err .indexError
+    else if v.processed then .err .notImplemented
+    else match v.resolve v.tStart a, v.resolve v.tStop b with
+      | some a', some b' => v.sliceTime a' b'
+      | _, _ => .err .runtimeError
 
 /-- `crop_by_distance(lower, upper)` (both already known to be exact rationals). -/
 def KView.crop (v : KView) (lo hi : Rat) : KRes :=
@@ -237,10 +280,12 @@ inductive KOp where
   | down (tf pf : Nat)
   | downWith (red : Red) (tf pf : Nat)
   | kbp (len : Rat)
+  | get (item : KItem)
 deriving Repr
 
 def KView.apply (v : KView) : KOp → KRes
   | .slice a b => v.sliceTime a b
+  | .get item => v.getitem item
   | .crop lo hi => v.crop lo hi
   | .flip => v.flip
   | .cropF lo hi => v.cropF lo hi
@@ -409,6 +454,16 @@ def showKRes : KRes → String
       -- a colour without photon data is a zero image of the same shape
       ++ " absent=" ++ toString v.img.length ++ "x" ++ toString (numCols v.img)
       ++ " pt=" ++ (match v.pixelTime with | .ok t => toString t | .error e => showErr e)
+      ++ " start=" ++ toString v.tStart ++ " stop=" ++ toString v.tStop
+
+/-- `N`, an integer, or `s` followed by the dot-separated code points of a time string -/
+def kbound? (s : String) : Option KBound :=
+  if s == "N" then some .none
+  else if s.startsWith "s" then do
+    let body := (s.drop 1).toString
+    let cps ← if body == "" then some [] else (body.splitOn ".").mapM String.toNat?
+    some (.str (String.ofList (cps.map Char.ofNat)))
+  else (s.toInt?).map .ts
 
 def kop? (s : String) : Option KOp :=
   match s.splitOn ":" with
@@ -421,6 +476,9 @@ def kop? (s : String) : Option KOp :=
     let red ← (match red with | "max" => some Red.max | "min" => some Red.min | "ptp" => some Red.ptp | _ => none)
     let tf ← tf.toNat?; let pf ← pf.toNat?; some (.downWith red tf pf)
   | ["kbp", len] => do let len ← rat? (len.replace "_" "/"); some (.kbp len)
+  | ["get", a, b] => do let a ← kbound? a; let b ← kbound? b; some (.get (.window a b false))
+  | ["getstep", a, b] => do let a ← kbound? a; let b ← kbound? b; some (.get (.window a b true))
+  | ["scalar"] => some (.get .scalar)
   | _ => none
 
 def oi? (s : String) : Option (Option Int) := optInt? s
@@ -448,10 +506,10 @@ def showSRes : SRes → String
 
 
 /-- ops:
-  `c06.kymo <img rows of v:tmin:tmax> <delta> <px p/q> <unit> <pxum p/q|N> <linetime p/q> <scantime p/q> <pixeltime ns> op…`
+  `c06.kymo <img rows of v:tmin:tmax> <delta> <px p/q> <unit> <pxum p/q|N> <linetime p/q> <scantime p/q> <pixeltime ns> <start> <stop> op…`
   `c06.scan <frames: rows of v:tmin:tmax pixels, frames separated by |> <delta> <fastRows 0|1> op…` -/
 def handle : List String → Option String
-  | "c06.kymo" :: img :: delta :: px :: unit :: pxum :: lt :: st :: pt :: ops => do
+  | "c06.kymo" :: img :: delta :: px :: unit :: pxum :: lt :: st :: pt :: t0 :: t1 :: ops => do
     let img ← listListOf? pix? img
     let delta ← int? delta
     let px ← rat? px; let unit ← nat? unit
@@ -459,7 +517,8 @@ def handle : List String → Option String
     let lt ← rat? lt; let st ← rat? st
     let ops ← ops.mapM kop?
     let pt ← int? pt
-    let v : KView := ⟨img, true, delta, px, unit, pxum, lt, st, false, 0, pt, ratToFloat px⟩
+    let t0 ← int? t0; let t1 ← int? t1
+    let v : KView := ⟨img, true, delta, px, unit, pxum, lt, st, false, 0, pt, ratToFloat px, t0, t1⟩
     some (showKRes (runK v ops))
   | "c06.scan" :: frames :: delta :: fastRows :: ops => do
     let frames ← (frames.splitOn "|").mapM (listListOf? pix?)
